@@ -82,6 +82,27 @@ def isclose_definition(ctx, r, dis, fails, sigs=None):
                 aa, ab = C.ak_array("m", sig, A), C.ak_array("m", sig, B)
                 got["ak.method"] = tolist(aa.isclose(ab, rtol=rtol, atol=atol))
                 n += 4 * len(sub)
+                # allclose = all(isclose): once on the mixed rows (some close, some not) and once on the close rows only
+                close_idx = [i for i, w_ in enumerate(W) if w_]
+                for label, idx in (("mixed", list(range(len(sub)))), ("all-close", close_idx)):
+                    if not idx:
+                        continue
+                    want_all = all(W[i] for i in idx)
+                    A_, B_ = [A[i] for i in idx], [B[i] for i in idx]
+                    forms_all = {"np.allclose": lambda: C.np_array("g", sig, A_).allclose(C.np_array("g", sig, B_), rtol=rtol, atol=atol),
+                                 "numpy.allclose(np)": lambda: numpy.allclose(C.np_array("g", sig, A_), C.np_array("g", sig, B_), rtol=rtol, atol=atol),
+                                 "ak.allclose": lambda: C.ak_array("m", sig, A_).allclose(C.ak_array("m", sig, B_), rtol=rtol, atol=atol)}
+                    for fname, f_ in forms_all.items():
+                        n += 1
+                        try:
+                            gv = bool(f_())
+                        except Exception as e:  # noqa: BLE001
+                            gv = type(e).__name__
+                        if gv != want_all:
+                            key = f"allclose:{fname}"
+                            if not any(f and f["key"] == key for f in fails):
+                                dis.append(f"{fname} on {','.join(sig)} ({label} rows, rtol={rtol} atol={atol}) returns {gv}; all(isclose) over the elements is {want_all}")
+                                fails.append({"key": key, "what": dis[-1], "code": None})
                 for form, vals in got.items():
                     if vals != W:
                         i = [x != y for x, y in zip(vals, W)].index(True)
